@@ -15,6 +15,7 @@ import c19_fam as fam
 from c19_fam import F, fs, close
 
 EPS64 = 2.220446049250313e-16
+SPECIALS = ("nan", "inf", "-inf")
 EPS = {"float64": 2.220446049250313e-16, "float32": 1.1920928955078125e-07}
 # model (Float = binary64) vs implementation: binary64 to 1e-9; a binary32 implementation is compared
 # with the binary64 model evaluated at the SAME (binary32) inputs to 1e-4 (relative to max(1, |x|))
@@ -807,28 +808,55 @@ class C19(PropertyCheck):
         torch.manual_seed(case["seed"])
         d = S(case["given"], case["total"], case["out_size"])
         b = d.sample([8])
-        sup = d.enumerate_support()
-        lp = d.log_prob(sup).to(torch.float64)
-        return {"ok": bool(d.support.check(b).all()), "sums": [int(x) for x in b[:, : case["total"]].sum(-1)],
-                "tail": int(b[:, case["total"]:].abs().sum()), "n_support": sup.shape[0],
-                "psum": fs(lp.exp().sum().item())}
+        out = {"ok": bool(d.support.check(b).all()), "sums": [int(x) for x in b[:, : case["total"]].sum(-1)],
+               "tail": int(b[:, case["total"]:].abs().sum()),
+               "binary": bool(((b == 0) | (b == 1)).all()), "shape": list(b.shape),
+               "prob": fs(d.log_prob(b[0]).to(torch.float64).exp().item())}
+        if case.get("enumerate", True):
+            sup = d.enumerate_support()
+            lp = d.log_prob(sup).to(torch.float64)
+            out.update({"n_support": sup.shape[0], "psum": fs(lp.exp().sum().item())})
+        return out
 
     def _req_srswor_dist(self, case):
-        return {"op": "c19.binom", "case": {"L": case["total"], "queries": [[case["total"], case["given"]]]}}
+        if not case.get("enumerate", True):
+            return {"op": "c19.binom", "case": {"L": case["total"], "queries": [[case["total"], case["given"]]]}}
+        return {"op": "c19.srswor_prob", "case": {"out_size": case["out_size"], "total": case["total"],
+                                                  "given": case["given"]}}
 
     def _cmp_srswor_dist(self, case, impl, model):
-        return [] if impl["n_support"] == model["binom"][0] else [
-            f"|support| impl={impl['n_support']} model binom={model['binom'][0]}"]
+        if not case.get("enumerate", True):
+            # P = 1 / C(total, given) from float32 log-factorials: relative 1e-4 (sums of up to 257 logs)
+            ex = Fr(1, model["binom"][0]) if model["binom"][0] else None
+            if case["total"] <= 66 and ex is not None and not close(impl["prob"], ex, 1e-4):
+                return [f"exp(log_prob) impl={float(F(impl['prob']))} model 1/binom={float(ex)}"]
+            return []
+        out = []
+        if impl["n_support"] != model["n_support"] or impl["n_support"] != model["binom"]:
+            out.append(f"|support| impl={impl['n_support']} model filter rows={model['n_support']} "
+                       f"binom={model['binom']}")
+        if not close(impl["prob"], model["prob"], 1e-5):
+            out.append(f"exp(log_prob) impl={float(F(impl['prob']))} model={model['prob']}")
+        if F(model["support_times_prob"]) != 1:
+            out.append(f"model: |support| * P = {model['support_times_prob']}")
+        return out
 
     def _pred_srswor_dist(self, case, impl, model):
         fails = []
-        if not impl["ok"] or impl["tail"] != 0 or any(s != case["given"] for s in impl["sums"]):
+        if (not impl["ok"] or impl["tail"] != 0 or not impl["binary"]
+                or any(s != case["given"] for s in impl["sums"])):
             fails.append((f"SRSWOR sample (seed {case['seed']}) outside support: sums={impl['sums']} "
-                          f"tail={impl['tail']}", None))
+                          f"tail={impl['tail']} binary={impl['binary']}", None))
+        if impl["shape"] != [8, case["out_size"]]:
+            fails.append((f"SRSWOR sample shape {impl['shape']}", None))
+        if not case.get("enumerate", True):
+            return fails
         if impl["n_support"] != math.comb(case["total"], case["given"]):
             fails.append((f"|support| = {impl['n_support']} != C({case['total']},{case['given']})", None))
         if abs(float(F(impl["psum"])) - 1) > 1e-5:
             fails.append((f"SRSWOR probabilities over the support sum to {float(F(impl['psum']))}", None))
+        if abs(impl["n_support"] * float(F(impl["prob"])) - 1) > 1e-5:
+            fails.append((f"|support| * P(sample) = {impl['n_support'] * float(F(impl['prob']))}", None))
         return fails
 
     # ---------------------------------------------------------------- binomial / enumerate_*
@@ -929,44 +957,59 @@ class C19(PropertyCheck):
 
     # ---------------------------------------------------------------- relaxed Bernoulli
     @staticmethod
-    def _clamp(u):
-        return min(max(float(F(u)), EPS64), 1 - EPS64)
+    def _tdtype(case):
+        import torch
+        return {"float64": torch.float64, "float32": torch.float32}[case.get("dtype", "float64")]
 
     def _bern_dist(self, case):
         import torch
         from pydrobert.torch.distributions import LogisticBernoulli
-        lg = torch.tensor([float(F(case["logit"]))], dtype=torch.float64)
+        dt = self._tdtype(case)
+        if "value" not in case:          # cases written before the parameter was given directly
+            lg = torch.tensor([float(F(case["logit"]))], dtype=dt)
+            return LogisticBernoulli(logits=lg) if case["param"] == "logits" else LogisticBernoulli(
+                probs=torch.sigmoid(lg))
+        val = torch.tensor([float(F(case["value"]))], dtype=dt)
         if case["param"] == "logits":
-            return LogisticBernoulli(logits=lg)
-        return LogisticBernoulli(probs=torch.sigmoid(lg))
+            return LogisticBernoulli(logits=val)
+        if case["param"] == "sigmoid":
+            return LogisticBernoulli(probs=torch.sigmoid(val))
+        return LogisticBernoulli(probs=val)
 
     def _impl_bern(self, case):
         import torch
         d = self._bern_dist(case)
-        u = torch.tensor([float(F(case["u"]))], dtype=torch.float64)
-        v = torch.tensor([float(F(case["v"]))], dtype=torch.float64)
+        dt = self._tdtype(case)
+        u = torch.tensor([float(F(case["u"]))], dtype=dt)
+        v = torch.tensor([float(F(case["v"]))], dtype=dt)
         with fam.torch_patched(rand=lambda *a, **k: u.clone(), rand_like=lambda *a, **k: v.clone()):
             z = d.rsample()
             b = d.threshold(z)
             out = {"z": fs(z.item()), "b": fs(b.item()), "logprob": fs(d.log_prob(z).item()),
                    "tlog": fs(d.tlog_prob(b).item()), "clog": fs(d.clog_prob(z, b).item()),
-                   "logit": fs(d.logits.item()), "p": fs(torch.distributions.utils.clamp_probs(d.probs).item())}
+                   "logit": fs(d.logits.item()), "p": fs(d.probs.item()),
+                   "in_support": bool(d.support.check(z).all()), "out_dtype": str(z.dtype)[6:]}
             for bb in (0.0, 1.0):
-                bt = torch.tensor([bb], dtype=torch.float64)
+                bt = torch.tensor([bb], dtype=dt)
                 zc = d.csample(bt)
                 out[f"c{int(bb)}"] = {
                     "zc": fs(zc.item()), "thr": fs(d.threshold(zc).item()),
                     "clog": fs(d.clog_prob(zc, bt).item()), "tlog": fs(d.tlog_prob(bt).item()),
                     "logprob_zc": fs(d.log_prob(zc).item()),
-                    "clog_other": fs(d.clog_prob(zc, 1 - bt).item())}
+                    "clog_other": fs(d.clog_prob(zc, 1 - bt).item()),
+                    "in_support": bool(d.support.check(zc).all())}
         return out
 
     def _req_bern(self, case):
+        # the parameters and draws go to the model RAW (as the dtype holds them); clamp_probs is part
+        # of the model (lbRsampleC / lbCsampleC)
         import torch
         d = self._bern_dist(case)
+        dt = self._tdtype(case)
+        rnd = lambda x: torch.tensor([float(F(x))], dtype=dt).item()
         return {"op": "c19.bern", "case": {
-            "logit": fs(d.logits.item()), "p": fs(torch.distributions.utils.clamp_probs(d.probs).item()),
-            "u": fs(self._clamp(case["u"])), "v": fs(self._clamp(case["v"])), "eps": fs(EPS64)}}
+            "logit": fs(d.logits.item()), "p": fs(d.probs.item()),
+            "u": fs(rnd(case["u"])), "v": fs(rnd(case["v"])), "eps": fs(EPS[case.get("dtype", "float64")])}}
 
     @staticmethod
     def _fclose(a, b, tol=1e-9):
@@ -976,47 +1019,103 @@ class C19(PropertyCheck):
             return a == b
         return close(a, b, tol)
 
+    @staticmethod
+    def _finite(x):
+        return x is not None and x not in SPECIALS
+
+    def _lb_overflow(self, case, impl, zkey):
+        """the specific float32 defect (finding C19.logistic_bernoulli.float32_exp_overflow): log_prob /
+        clog_prob compute log(1 + exp(x)) as x.exp().log1p(), and exp overflows binary32 for
+        x = logits or x = logits - z above 88.72 although the log-density itself is of moderate size."""
+        if case.get("dtype", "float64") != "float32":
+            return False
+        l = float(F(impl["logit"]))
+        zs = impl[zkey]["zc"] if zkey in ("c0", "c1") else impl["z"]
+        if not self._finite(zs):
+            return False
+        return l > F32_EXP_MAX or l - float(F(zs)) > F32_EXP_MAX
+
     def _cmp_bern(self, case, impl, model):
         out = []
-        for k in ("z", "b", "logprob", "tlog", "clog"):
-            if not self._fclose(impl[k], model[k]):
+        tol = TOL_D[case.get("dtype", "float64")]
+        ovf = self._lb_overflow(case, impl, "z")
+        keys = ["z", "tlog"] + ([] if ovf else ["logprob", "clog"])
+        # the discrete outcome only when z is clear of 0 by more than the tolerance (margin rule)
+        if self._finite(model["z"]) and abs(F(model["z"])) > Fr(tol):
+            keys.append("b")
+        for k in keys:
+            if not self._fclose(impl[k], model[k], tol):
                 out.append(f"{k}: impl={impl[k]} model={model[k]}")
         for c in ("c0", "c1"):
-            for k in ("zc", "thr", "clog", "tlog", "logprob_zc"):
-                if not self._fclose(impl[c][k], model[c][k]):
+            ovf = self._lb_overflow(case, impl, c)
+            for k in ["zc", "thr", "tlog"] + ([] if ovf else ["clog", "logprob_zc"]):
+                if not self._fclose(impl[c][k], model[c][k], tol):
                     out.append(f"{c}.{k}: impl={impl[c][k]} model={model[c][k]}")
         return out[:6]
 
+    def _factor_fail(self, tol, lp, tl, cl):
+        """log p(z) = log P(b) + log p(z | b), all three finite: None if it holds, else a description"""
+        if not (self._finite(lp) and self._finite(tl) and self._finite(cl)):
+            return f"not finite: log_prob = {lp}, tlog_prob = {tl}, clog_prob = {cl}"
+        d = abs(F(tl) + F(cl) - F(lp))
+        if d > Fr(tol) * max(1, abs(F(lp))):
+            return f"log_prob = {float(F(lp))!r} != tlog_prob + clog_prob = {float(F(tl))!r} + {float(F(cl))!r}"
+        return None
+
     def _pred_bern(self, case, impl, model):
         fails = []
+        dtn = case.get("dtype", "float64")
+        tol = TOL_D[dtn]
+        head = f"LogisticBernoulli({case['param']}={case.get('value', case.get('logit'))}, {dtn})"
+        osig = "C19.logistic_bernoulli.float32_exp_overflow"
+        if impl["out_dtype"] != dtn:
+            fails.append((f"{head}: rsample returns {impl['out_dtype']}", None))
+        if not self._finite(impl["z"]) or not impl["in_support"]:
+            fails.append((f"{head}: rsample(u={case['u']}) = {impl['z']} is outside the support (the reals)", None))
         for bb in (0, 1):
             c = impl[f"c{bb}"]
+            if not self._finite(c["zc"]) or not c["in_support"]:
+                fails.append((f"{head}: csample(b={bb}, v={case['v']}) = {c['zc']} is outside the support "
+                              f"(the reals)", None))
+                continue
             if F(c["thr"]) != bb:
-                fails.append((f"LogisticBernoulli: threshold(csample(b={bb})) = {c['thr']} (zcond={c['zc']})", None))
-            if c["clog"] in ("-inf", "nan") or not close(F(c["tlog"]) + F(c["clog"]), c["logprob_zc"]):
-                fails.append((f"LogisticBernoulli: log_prob(zcond) = {c['logprob_zc']} != tlog_prob + clog_prob = "
-                              f"{c['tlog']} + {c['clog']} (b={bb})", None))
+                fails.append((f"{head}: threshold(csample(b={bb})) = {c['thr']} (zcond={c['zc']})", None))
+            why = self._factor_fail(tol, c["logprob_zc"], c["tlog"], c["clog"])
+            if why:
+                sig = osig if self._lb_overflow(case, impl, f"c{bb}") and "not finite" in why else None
+                fails.append((f"{head}: factorisation at zcond = csample(b={bb}, v={case['v']}): {why}", sig))
             if c["clog_other"] != "-inf":
-                fails.append((f"LogisticBernoulli: clog_prob(zcond, 1-b) = {c['clog_other']}, expected -inf", None))
-        if impl["clog"] in ("-inf", "nan") or not close(F(impl["tlog"]) + F(impl["clog"]), impl["logprob"]):
-            fails.append((f"LogisticBernoulli: log_prob(z) = {impl['logprob']} != tlog_prob(H z) + clog_prob(z, H z)"
-                          f" = {impl['tlog']} + {impl['clog']}", None))
+                sig = osig if self._lb_overflow(case, impl, f"c{bb}") and not self._finite(c["clog_other"]) else None
+                fails.append((f"{head}: clog_prob(zcond, 1-b) = {c['clog_other']}, expected -inf", sig))
+        if self._finite(impl["z"]):
+            why = self._factor_fail(tol, impl["logprob"], impl["tlog"], impl["clog"])
+            if why:
+                sig = osig if self._lb_overflow(case, impl, "z") and "not finite" in why else None
+                fails.append((f"{head}: factorisation at z = rsample(u={case['u']}), b = H(z): {why}", sig))
         return fails
 
     # ---------------------------------------------------------------- relaxed categorical
     def _gumbel_dist(self, case):
         import torch
         from pydrobert.torch.distributions import GumbelOneHotCategorical
-        lg = torch.tensor([float(F(x)) for x in case["logits"]], dtype=torch.float64)
-        return GumbelOneHotCategorical(logits=lg)
+        dt = self._tdtype(case)
+        if "theta" not in case:          # cases written before `probs` was exercised
+            return GumbelOneHotCategorical(logits=torch.tensor([float(F(x)) for x in case["logits"]], dtype=dt))
+        th = torch.tensor([float(F(x)) for x in case["theta"]], dtype=dt)
+        return GumbelOneHotCategorical(**{case["param"]: th})
+
+    @staticmethod
+    def _gV(case):
+        return len(case["theta"] if "theta" in case else case["logits"])
 
     def _impl_gumbel(self, case):
         import torch
         d = self._gumbel_dist(case)
-        V = len(case["logits"])
-        u = torch.tensor([float(F(x)) for x in case["us"]], dtype=torch.float64)
-        v = torch.tensor([float(F(x)) for x in case["vs"]], dtype=torch.float64)
-        bk = torch.nn.functional.one_hot(torch.tensor(case["k"]), V).to(torch.float64)
+        dt = self._tdtype(case)
+        V = self._gV(case)
+        u = torch.tensor([float(F(x)) for x in case["us"]], dtype=dt)
+        v = torch.tensor([float(F(x)) for x in case["vs"]], dtype=dt)
+        bk = torch.nn.functional.one_hot(torch.tensor(case["k"]), V).to(dt)
         fl = lambda t: [fs(x) for x in t.tolist()]
         with fam.torch_patched(rand=lambda *a, **k: u.clone(), rand_like=lambda *a, **k: v.clone()):
             z = d.rsample()
@@ -1028,59 +1127,89 @@ class C19(PropertyCheck):
                     "zc": fl(zc), "thr_zc": fl(d.threshold(zc)), "clog_zc": fs(d.clog_prob(zc, bk).item()),
                     "tlog_k": fs(d.tlog_prob(bk).item()), "logprob_zc": fs(d.log_prob(zc).item()),
                     "clog_other": fs(d.clog_prob(zc, other).item()),
-                    "psum": fs(d.logits.exp().sum().item())}
+                    "psum": fs(d.logits.to(torch.float64).exp().sum().item()),
+                    "probs_sum": fs(d.probs.to(torch.float64).sum().item()),
+                    "in_support": bool(d.support.check(z).all() and d.support.check(zc).all()),
+                    "out_dtype": str(zc.dtype)[6:]}
 
     def _req_gumbel(self, case):
         import torch
         d = self._gumbel_dist(case)
+        dt = self._tdtype(case)
+        rnd = lambda x: torch.tensor([float(F(x))], dtype=dt).item()
         return {"op": "c19.gumbel", "case": {
             "logits": [fs(x) for x in d.logits.tolist()],
-            "probs": [fs(x) for x in torch.distributions.utils.clamp_probs(d.probs).tolist()],
-            "us": [fs(self._clamp(x)) for x in case["us"]], "vs": [fs(self._clamp(x)) for x in case["vs"]],
-            "k": case["k"], "eps": fs(EPS64)}}
+            "probs": [fs(x) for x in d.probs.tolist()],
+            "us": [fs(rnd(x)) for x in case["us"]], "vs": [fs(rnd(x)) for x in case["vs"]],
+            "k": case["k"], "eps": fs(EPS[case.get("dtype", "float64")])}}
+
+    def _g_absorbed(self, case, impl):
+        """the specific defect of the pinned csample (finding C19.gumbel.csample_guard_absorbed): the
+        margin `zcond_match_k - eps` is absolute, floating point absorbs it once |z_k| >= 2, so an
+        unconditioned coordinate can come out EQUAL to the conditioned one (and argmax takes the first)."""
+        zc = impl["zc"]
+        k = case["k"]
+        if not all(self._finite(x) for x in zc):
+            return False
+        zk = F(zc[k])
+        return abs(zk) >= 2 and any(j != k and F(zc[j]) == zk for j in range(len(zc)))
 
     def _cmp_gumbel(self, case, impl, model):
         out = []
+        tol = TOL_G[case.get("dtype", "float64")]
         # discrete outcomes only when the deciding gap is clear of the tolerance
-        zs = sorted((F(x) for x in model["z"]), reverse=True)
-        tie = len(zs) > 1 and abs(zs[0] - zs[1]) < Fr(1, 10 ** 8)
+        fin = all(self._finite(x) for x in model["z"])
+        zs = sorted((F(x) for x in model["z"]), reverse=True) if fin else []
+        tie = len(zs) > 1 and abs(zs[0] - zs[1]) < 10 * Fr(tol) * max(1, abs(zs[0]))
         for k in ("z", "zc"):
-            if not all(self._fclose(a, b, 1e-8) for a, b in zip(impl[k], model[k])):
+            if not all(self._fclose(a, b, tol) for a, b in zip(impl[k], model[k])):
                 out.append(f"{k}: impl={impl[k]} model={model[k]}")
         if not tie:
             if impl["b"] != model["b"]:
                 out.append(f"b: impl={impl['b']} model={model['b']}")
             for k in ("logprob", "tlog", "clog"):
-                if not self._fclose(impl[k], model[k], 1e-8):
+                if not self._fclose(impl[k], model[k], tol):
                     out.append(f"{k}: impl={impl[k]} model={model[k]}")
-        if impl["thr_zc"] != model["thr_zc"]:
-            out.append(f"thr_zc: impl={impl['thr_zc']} model={model['thr_zc']}")
-        for k in ("clog_zc", "tlog_k", "logprob_zc"):
-            if not self._fclose(impl[k], model[k], 1e-8):
+        absorbed = self._g_absorbed(case, impl)
+        if not absorbed:
+            if impl["thr_zc"] != model["thr_zc"]:
+                out.append(f"thr_zc: impl={impl['thr_zc']} model={model['thr_zc']}")
+        for k in ("tlog_k", "logprob_zc") + (() if absorbed else ("clog_zc",)):
+            if not self._fclose(impl[k], model[k], tol):
                 out.append(f"{k}: impl={impl[k]} model={model[k]}")
         return out[:6]
 
     def _pred_gumbel(self, case, impl, model):
         fails = []
-        V = len(case["logits"])
+        dtn = case.get("dtype", "float64")
+        tol = TOL_G[dtn]
+        V = self._gV(case)
+        head = (f"GumbelOneHotCategorical({case.get('param', 'logits')}="
+                f"{case.get('theta', case.get('logits'))}, {dtn})")
         bk = [fs(1 if j == case["k"] else 0) for j in range(V)]
+        asig = "C19.gumbel.csample_guard_absorbed" if self._g_absorbed(case, impl) else None
+        if impl["out_dtype"] != dtn:
+            fails.append((f"{head}: csample returns {impl['out_dtype']}", None))
+        if not all(self._finite(x) for x in impl["z"] + impl["zc"]) or not impl["in_support"]:
+            fails.append((f"{head}: relaxed sample outside the support (real vectors): z = {impl['z']}, "
+                          f"zcond = {impl['zc']}", None))
+            return fails
+        if abs(float(F(impl["psum"])) - 1) > 1e-5 or abs(float(F(impl["probs_sum"])) - 1) > 1e-5:
+            fails.append((f"{head}: probabilities sum to {float(F(impl['probs_sum']))}, exp(logits) to "
+                          f"{float(F(impl['psum']))}", None))
         if impl["thr_zc"] != bk:
-            fails.append((f"GumbelOneHotCategorical: threshold(csample(b)) = {impl['thr_zc']} != b = {bk} "
-                          f"(zcond = {impl['zc']})", None))
-        scale = max(1.0, abs(float(F(impl["logprob_zc"]))))
-        if impl["clog_zc"] in ("-inf", "nan") or abs(
-                float(F(impl["tlog_k"]) + F(impl["clog_zc"]) - F(impl["logprob_zc"]))) > 1e-8 * scale:
-            fails.append((f"GumbelOneHotCategorical: log_prob(zcond) = {impl['logprob_zc']} != tlog_prob + "
-                          f"clog_prob = {impl['tlog_k']} + {impl['clog_zc']}", None))
-        scale = max(1.0, abs(float(F(impl["logprob"]))))
-        if impl["clog"] in ("-inf", "nan") or abs(
-                float(F(impl["tlog"]) + F(impl["clog"]) - F(impl["logprob"]))) > 1e-8 * scale:
-            fails.append((f"GumbelOneHotCategorical: log_prob(z) = {impl['logprob']} != tlog_prob(H z) + "
-                          f"clog_prob(z, H z) = {impl['tlog']} + {impl['clog']}", None))
+            fails.append((f"{head}: threshold(csample(b)) = {impl['thr_zc']} != b = {bk} "
+                          f"(zcond = {[float(F(x)) for x in impl['zc']]}, v = {case['vs']})", asig))
+        why = self._factor_fail(tol, impl["logprob_zc"], impl["tlog_k"], impl["clog_zc"])
+        if why:
+            fails.append((f"{head}: factorisation at zcond = csample(b = e_{case['k']}): {why}", asig))
+        why = self._factor_fail(tol, impl["logprob"], impl["tlog"], impl["clog"])
+        if why:
+            fails.append((f"{head}: factorisation at z = rsample(u), b = H(z): {why}", None))
         if impl["clog_other"] != "-inf":
-            fails.append(("GumbelOneHotCategorical: clog_prob(zcond, other) is not -inf", None))
-        if sum(F(x) for x in impl["b"]) != 1:
-            fails.append(("GumbelOneHotCategorical: threshold is not one-hot", None))
+            fails.append((f"{head}: clog_prob(zcond, other) = {impl['clog_other']} is not -inf", asig))
+        if sum(F(x) for x in impl["b"]) != 1 or any(F(x) not in (0, 1) for x in impl["b"]):
+            fails.append((f"{head}: threshold is not one-hot", None))
         return fails
 
     # ---------------------------------------------------------------- relaxation-based estimators
@@ -1141,7 +1270,7 @@ class C19(PropertyCheck):
         from pydrobert.torch.estimators import RelaxEstimator
         k = case["k"]
         d = LogisticBernoulli(probs=torch.tensor([k / 16], dtype=torch.float64, requires_grad=True))
-        R = k * (16 - k)
+        R = max(k, 1) * max(16 - k, 1)        # p = 0 / p = 1: only one region, 16 conditional draws each
         us, vs = [], []
         for j in range(16):
             u = (j + 0.5) / 16
@@ -1172,13 +1301,15 @@ class C19(PropertyCheck):
             (f"RelaxEstimator: mean value over the (u, v) grid {float(F(impl['v']))} != E f = {float(ex)}", None)]
 
     def _relax_pieces(self, case):
-        """the per-sample quantities RelaxEstimator combines, each with d/dlogit, obtained from the
+        """the per-sample quantities RelaxEstimator combines, each with d/dparameter, obtained from the
         distribution's own methods under the same draws."""
         import torch
         from pydrobert.torch.distributions import LogisticBernoulli
         N = case["N"]
-        lg = torch.tensor([float(F(case["logit"]))], dtype=torch.float64, requires_grad=True)
-        d = LogisticBernoulli(logits=lg)
+        par = case.get("param", "logits")
+        lg = torch.tensor([float(F(case["value"] if "value" in case else case["logit"]))],
+                          dtype=torch.float64, requires_grad=True)
+        d = LogisticBernoulli(**{par: lg})
         U = torch.tensor([float(F(x)) for x in case["us"]], dtype=torch.float64).unsqueeze(-1)
         Vv = torch.tensor([float(F(x)) for x in case["vs"]], dtype=torch.float64).unsqueeze(-1)
         t = torch.tensor([float(F(x)) for x in case["f"]], dtype=torch.float64)
@@ -1194,9 +1325,12 @@ class C19(PropertyCheck):
             v = RelaxEstimator(d, func, case["N"], cv)()
             g, = torch.autograd.grad(v.sum(), [lg])
             v2 = StraightThroughEstimator(d, func, case["N"])()
-        return {"relax": [fs(v.item()), fs(g.item())], "st": fs(v2.item())}
+            z = d.rsample([case["N"]])
+            zc = d.csample(d.threshold(z))
+        return {"relax": [fs(v.item()), fs(g.item())], "st": fs(v2.item()),
+                "z": [fs(x) for x in z.reshape(-1).tolist()], "zc": [fs(x) for x in zc.reshape(-1).tolist()]}
 
-    def _req_relax_comb(self, case):
+    def _relax_samples(self, case):
         import torch
         lg, d, U, Vv, func, cv = self._relax_pieces(case)
         samples = []
@@ -1213,20 +1347,33 @@ class C19(PropertyCheck):
         for n in range(case["N"]):
             samples.append({"f": [fs(fb[n].item())], "cvz": dual(cz, n), "cvzcond": dual(czc, n),
                             "logp": dual(lp, n)})
+        return samples
+
+    def _req_relax_comb(self, case):
+        samples = self._relax_samples(case)
+        if any(x in SPECIALS for sm in samples for v in sm.values() for x in v):
+            return None          # a non-finite piece: nothing to combine; the predicate reports it
         return {"op": "c19.relax", "case": {"samples": samples}}
 
     def _cmp_relax_comb(self, case, impl, model):
         out = []
         for j, nm in enumerate(("value", "gradient")):
             if not close(impl["relax"][j], model["relax"][j], 1e-8):
-                out.append(f"RelaxEstimator {nm}: impl={float(F(impl['relax'][j]))} "
-                           f"model={float(F(model['relax'][j]))}")
+                out.append(f"RelaxEstimator {nm}: impl={impl['relax'][j]} model={model['relax'][j]}")
         if not close(impl["st"], model["st"][0]):
             out.append(f"StraightThroughEstimator value: impl={impl['st']} model={model['st'][0]}")
         return out
 
     def _pred_relax_comb(self, case, impl, model):
-        return []
+        fails = []
+        head = f"LogisticBernoulli({case.get('param', 'logits')}={case.get('value', case.get('logit'))})"
+        if not all(self._finite(x) for x in impl["z"] + impl["zc"]):
+            fails.append((f"{head}: relaxed samples inside RelaxEstimator are not real: z = {impl['z']}, "
+                          f"zcond = {impl['zc']}", None))
+        if not all(self._finite(x) for x in impl["relax"] + [impl["st"]]):
+            fails.append((f"{head}: RelaxEstimator (value, gradient) = {impl['relax']}, "
+                          f"StraightThroughEstimator = {impl['st']}: not finite", None))
+        return fails
 
     # ================================================================ bookkeeping
     def nontrivial(self, case, impl):
@@ -1260,6 +1407,45 @@ class C19(PropertyCheck):
             t += ["binom:" + ("rec" if case["L"] > 20 else "fact")]
         elif k == "srswor":
             t += [f"srswor:{case['via']}/B={len(case['elems'])}"]
+        elif k == "bern":
+            v = case.get("value")
+            cls = "interior"
+            if v is not None and case["param"] == "probs":
+                x = F(v)
+                cls = "p=0" if x == 0 else "p=1" if x == 1 else "near-boundary" if min(x, 1 - x) < Fr(1, 1000) \
+                    else "interior"
+            elif v is not None and case["param"] == "logits":
+                cls = "saturated" if abs(F(v)) >= 17 else "interior"
+            t += [f"bern:{case['param']}/{cls}/{case.get('dtype', 'float64')}"]
+            for nm in ("u", "v"):
+                x = F(case[nm])
+                if x in (0, 1):
+                    t += [f"bern:{nm}={x}"]
+        elif k == "gumbel":
+            th = case.get("theta", case.get("logits"))
+            par = case.get("param", "logits")
+            if par == "probs":
+                tot = sum(F(x) for x in th)
+                cls = "one-hot" if any(F(x) == tot for x in th) else "has-zero" if any(F(x) == 0 for x in th) \
+                    else "near-boundary" if any(F(x) / tot < Fr(1, 1000) for x in th) else "interior"
+            else:
+                sp = max(F(x) for x in th) - min(F(x) for x in th)
+                cls = "saturated" if sp >= 17 else "interior"
+            t += [f"gumbel:{par}/{cls}/{case.get('dtype', 'float64')}"]
+        elif k in ("relax_value", "st_value"):
+            ks = case["ks"] if k == "st_value" else [case["k"]]
+            t += [f"{k}:{'boundary' if any(x in (0, 16) for x in ks) else 'interior'}"]
+        elif k == "relax_comb":
+            par = case.get("param", "logits")
+            x = F(case.get("value", case.get("logit", "0")))
+            edge = (par == "probs" and min(x, 1 - x) < Fr(1, 1000)) or (par == "logits" and abs(x) >= 17)
+            t += [f"relax_comb:{par}/{'boundary' if edge else 'interior'}"]
+        if k == "direct" and _is_edge(case["dist"]):
+            t += ["direct:near-boundary/" + case["dist"]["param"]]
+        if k == "is" and _is_edge(case["proposal"]):
+            t += ["is:near-boundary proposal"]
+        if k == "enumerate" and _is_edge(case["dist"]):
+            t += ["enumerate:near-boundary"]
         return t
 
     def shrink(self, case):
@@ -1280,6 +1466,15 @@ class C19(PropertyCheck):
             keep = [q for q in case["queries"] if q[0] == case["L"]][:1]
             for q in case["queries"]:
                 yield dict(case, queries=[q] + ([] if q[0] == case["L"] else keep))
+        if k in ("bern", "gumbel") and case.get("dtype") == "float32":
+            yield dict(case, dtype="float64")
+        if k == "bern":
+            for nm in ("u", "v"):
+                if case[nm] != "1/2":
+                    yield dict(case, **{nm: "1/2"})
+        if k == "relax_comb" and case["N"] > 1:
+            for n in range(case["N"]):
+                yield dict(case, N=1, us=[case["us"][n]], vs=[case["vs"][n]])
         if k == "srswor" and len(case["elems"]) > 1:
             for e in case["elems"]:
                 yield dict(case, elems=[e], out_size=None if case["out_size"] is None else max(
